@@ -545,6 +545,17 @@ func enumJumpPrograms() []namedProg {
 func enumDataPrograms() []namedProg {
 	var out []namedProg
 	add := func(id string, prog ...node) { out = append(out, namedProg{"data-" + id, prog}) }
+	// truth of boundary values where a value is taken as a condition: only false, nil, the integer zero and
+	// the character zero are false; every float -- zero, negative zero -- is true, as every string, array, list.
+	for i, v := range []node{{"flt", "0.0"}, {"flt", "-0.0"}, {"flt", "1.5"}, {"flt", "0e0"}, nInt(0), nInt(-1), nStr(""), nArr(), nNil(), nBool(false)} {
+		id := itoa(i)
+		add("truth-cond-"+id, nApp("tr", nInt(1), nCond([]clause{{v, nInt(10)}}, nInt(20))))
+		add("truth-not-"+id, nApp("tr", nInt(1), nApp("not", v)))
+		add("truth-and-"+id, nApp("tr", nInt(1), nCond([]clause{{nAnd(v, nInt(7)), nInt(10)}}, nInt(20))))
+		add("truth-or-"+id, nApp("tr", nInt(1), nCond([]clause{{nOr(v, nBool(false)), nInt(10)}}, nInt(20))))
+		add("truth-var-"+id, nDef("c", v), nApp("tr", nInt(1), nCond([]clause{{nSym("c"), nInt(10)}}, nInt(20))))
+		add("truth-for-"+id, nDef("k", nInt(0)), nFor("", nDef("i", nInt(0)), nAnd(nApp("<", nSym("i"), nInt(2)), v), nSet("i", nApp("+", nSym("i"), nInt(1))), nSet("k", nApp("+", nSym("k"), nInt(1)))), nApp("tr", nInt(1), nSym("k")))
+	}
 	lst := func(n int) node {
 		var es []node
 		for i := 0; i < n; i++ {
@@ -680,6 +691,71 @@ func enumScopePrograms() []namedProg {
 		addp("eval-maker", nDefn("mk", strict("a"), "", nFn(nil, "", nEval(nSym("a")))), nApp("tr", nInt(1), nCall(nCall(nSym("mk"), nInt(5)))))
 		addp("eval-let", nLet("let", []bind{{"a", nInt(5)}}, nDefn("h", nil, "", nEval(nApp("+", nSym("a"), nInt(1)))), nApp("tr", nInt(1), nCall(nSym("h")))))
 		addp("plain-maker", nDefn("mk", strict("a"), "", nFn(nil, "", nApp("+", nSym("a"), nInt(1)))), nApp("tr", nInt(1), nCall(nCall(nSym("mk"), nInt(5)))))
+	}
+	// closures made in the iterations of a (tail-)recursive function: each captures the parameters and the
+	// definitions of ITS activation, whatever later activations do; called after the recursion has ended,
+	// reading and updating what they captured.
+	callAll := func(k int) []node { // (tr 1 [((aget fs 0)) ...]) twice: updates must persist per closure
+		var cs []node
+		for i := 0; i < k; i++ {
+			cs = append(cs, nCall(nApp("aget", nSym("fs"), nInt(i))))
+		}
+		return []node{nApp("tr", nInt(1), nArr(cs...)), nApp("tr", nInt(2), nArr(cs...))}
+	}
+	for g := 0; g < 2; g++ {
+		pre := []node{}
+		if g == 1 {
+			pre = append(pre, nDef("k", nInt(50)), nDef("c", nInt(60)))
+		}
+		id := itoa(g)
+		addp := func(name string, prog ...node) { add(name+"-"+id, append(append([]node{}, pre...), prog...)...) }
+		rec := func(last node) node { return nCond([]clause{{nApp("==", nSym("k"), nInt(0)), nSym("acc")}}, last) }
+		selfcall := func(extra node) node {
+			return nCall(nSym("mk"), nApp("-", nSym("k"), nInt(1)), nApp("append", nSym("acc"), extra))
+		}
+		// reads the parameter
+		addp("iter-param", append([]node{nDefn("mk", strict("k", "acc"), "", rec(selfcall(nFn(nil, "", nSym("k"))))),
+			nDef("fs", nCall(nSym("mk"), nInt(3), nArr()))}, callAll(3)...)...)
+		// updates the parameter: a counter per activation
+		addp("iter-counter", append([]node{nDefn("mk", strict("k", "acc"), "", rec(selfcall(nFn(nil, "", nSet("k", nApp("+", nSym("k"), nInt(100))), nSym("k"))))),
+			nDef("fs", nCall(nSym("mk"), nInt(3), nArr()))}, callAll(3)...)...)
+		// a definition in the function's own scope
+		addp("iter-def", append([]node{nDefn("mk", strict("k", "acc"), "", nDef("c", nApp("*", nSym("k"), nInt(10))), rec(selfcall(nFn(nil, "", nSet("c", nApp("+", nSym("c"), nInt(1))), nSym("c"))))),
+			nDef("fs", nCall(nSym("mk"), nInt(3), nArr()))}, callAll(3)...)...)
+		// the self call under let / newScope (their scopes are popped by a tail call, the function's is not theirs)
+		addp("iter-let", append([]node{nDefn("mk", strict("k", "acc"), "", rec(nLet("let", []bind{{"c", nApp("*", nSym("k"), nInt(10))}}, selfcall(nFn(nil, "", nArr(nSym("k"), nSym("c"))))))),
+			nDef("fs", nCall(nSym("mk"), nInt(3), nArr()))}, callAll(3)...)...)
+		// not in tail position (control): the same closures through ordinary recursion
+		addp("iter-nontail", append([]node{nDefn("mk", strict("k"), "", nCond([]clause{{nApp("==", nSym("k"), nInt(0)), nArr()}},
+			nApp("append", nCall(nSym("mk"), nApp("-", nSym("k"), nInt(1))), nFn(nil, "", nSet("k", nApp("+", nSym("k"), nInt(100))), nSym("k"))))),
+			nDef("fs", nCall(nSym("mk"), nInt(3)))}, callAll(3)...)...)
+	}
+	// a closure made as the FIRST thing in a block that is still empty (newScope, let without bindings, a
+	// function body, a loop body): names the block defines afterwards -- also the closure's own name -- are
+	// the block's, for the closure as for the rest of the block.
+	for g := 0; g < 2; g++ {
+		pre := []node{}
+		if g == 1 {
+			pre = append(pre, nDef("v", nInt(1)), nDef("x", nInt(1)))
+		}
+		id := itoa(g)
+		addp := func(name string, prog ...node) { add(name+"-"+id, append(append([]node{}, pre...), prog...)...) }
+		get := nFn(nil, "", nSym("v"))
+		setter := nFn(strict("n"), "", nSet("v", nSym("n")))
+		blocks := map[string]func(body ...node) node{
+			"scope":  func(body ...node) node { return nScope(body...) },
+			"let0":   func(body ...node) node { return nLet("let", nil, body...) },
+			"fnbody": func(body ...node) node { return nCall(nFn(nil, "", body...)) },
+			"inlet":  func(body ...node) node { return nLet("let", []bind{{"x", nInt(2)}}, nScope(body...)) },
+		}
+		for bn, blk := range blocks {
+			addp("first-get-"+bn, nApp("tr", nInt(1), blk(nDef("get", get), nDef("v", nInt(10)), nCall(nSym("get")))))
+			addp("first-escape-"+bn, nDef("h", blk(nDef("get", get), nDef("v", nInt(10)), nSym("get"))), nApp("tr", nInt(1), nCall(nSym("h"))))
+			addp("first-setget-"+bn, nApp("tr", nInt(1), blk(nDef("put", setter), nDef("get", get), nDef("v", nInt(10)), nCall(nSym("put"), nInt(7)), nArr(nCall(nSym("get")), nSym("v")))))
+			addp("first-rec-"+bn, nApp("tr", nInt(1), blk(nDefn("down", strict("n"), "", nCond([]clause{{nApp("==", nSym("n"), nInt(0)), nInt(0)}}, nApp("+", nInt(1), nCall(nSym("down"), nApp("-", nSym("n"), nInt(1)))))), nCall(nSym("down"), nInt(3)))))
+		}
+		addp("first-get-for", nDef("r", nInt(0)), nFor("", nDef("i", nInt(0)), nApp("<", nSym("i"), nInt(2)), nSet("i", nApp("+", nSym("i"), nInt(1))),
+			nDef("get", get), nDef("v", nApp("+", nInt(10), nSym("i"))), nSet("r", nApp("+", nSym("r"), nCall(nSym("get"))))), nApp("tr", nInt(1), nSym("r")))
 	}
 	return out
 }
